@@ -467,10 +467,12 @@ class Discovery (EventMixin):
     return EventHalt # Probably nobody else needs this event
 
   def _delete_links (self, links):
-    for link in links:
-      self.raiseEventNoErrors(LinkEvent, False, link)
+    # Remove the links first, so that LinkEvent handlers which look at
+    # .adjacency (e.g., spanning_tree) see the topology without them.
     for link in links:
       self.adjacency.pop(link, None)
+    for link in links:
+      self.raiseEventNoErrors(LinkEvent, False, link)
 
   def is_edge_port (self, dpid, port):
     """
